@@ -358,6 +358,8 @@ def equal(a, b, max_depth=10):
 
 
 def _eq(a, b, case, depth):
+    if a == b:
+        return True, None
     atom = _innermost_atom(a)
     if atom is None:
         atom = _innermost_atom(b)
@@ -367,7 +369,10 @@ def _eq(a, b, case, depth):
             eb = to_sympy(b)
         except ValueError as ex:
             return False, {'reason': str(ex)}
-        if is_zero(ea - eb):
+        if ea == eb or is_zero(ea - eb):
+            return True, None
+        ca, cb = sp.cancel(sp.together(ea)), sp.cancel(sp.together(eb))
+        if ca == cb:
             return True, None
         return False, {'case': case, 'lhs': str(sp.cancel(sp.together(ea))),
                        'rhs': str(sp.cancel(sp.together(eb)))}
